@@ -13,7 +13,7 @@ import (
 // `if err != nil { if err == backend.ErrNotExist { … } }` of that pull – check and create under one lock.
 func init() { generators = append(generators, genKeystoreCreate) }
 
-func srcText(n ast.Node) string {
+func ksCreateText(n ast.Node) string {
 	var b bytes.Buffer
 	if err := printer.Fprint(&b, fset, n); err != nil {
 		return "?"
@@ -45,11 +45,11 @@ func enclosingIfConds(fd *ast.FuncDecl, callee string) (conds []string, ok bool)
 					found = true
 					return false
 				}
-				if walk(t.Body, append(append([]string{}, stack...), srcText(t.Cond))) {
+				if walk(t.Body, append(append([]string{}, stack...), ksCreateText(t.Cond))) {
 					found = true
 					return false
 				}
-				if t.Else != nil && walk(t.Else, append(append([]string{}, stack...), "else("+srcText(t.Cond)+")")) {
+				if t.Else != nil && walk(t.Else, append(append([]string{}, stack...), "else("+ksCreateText(t.Cond)+")")) {
 					found = true
 					return false
 				}
@@ -102,7 +102,7 @@ func genKeystoreCreate() {
 				found = true
 				for _, el := range cl.Elts {
 					if kv, ok := el.(*ast.KeyValueExpr); ok {
-						fields = append(fields, srcText(kv.Key)+"="+srcText(kv.Value))
+						fields = append(fields, ksCreateText(kv.Key)+"="+ksCreateText(kv.Value))
 					}
 				}
 				return false
